@@ -484,42 +484,224 @@ func (w *World) guardedByLookupMiss(mu *ssa.MapUpdate) (bool, string) {
 	return false, "unconditional write to a caller-supplied map (no dominating failed lookup of the same key)"
 }
 
-// ruleSharedMaps: map updates on Encoder.nameMap / Decoder.typMap reachable
-// from codec entry points.
+// ruleSharedMaps: writes to caller-supplied name/type maps (map[string]string,
+// map[string]reflect.Type) in everything an instance does or its construction
+// does: functions reachable from the codec entry points and from the
+// constructors / pool factories (instances are constructed lazily on worker
+// goroutines over ONE shared map).  A map is the caller's unless it is a map
+// freshly made in the function.  A write is tolerated only on the miss edge of
+// a lookup of the same key whose key is computed from the reflect type of the
+// value being processed (a complete map has that key, so it is never written);
+// a key taken from a constant or a package-level table is absent from every
+// caller's map, so the first instances all write.
 func (w *World) ruleSharedMaps(r *Report, rule string) {
-	roots := w.codecRoots()
+	roots := append([]*ssa.Function{}, w.codecRoots()...)
+	roots = append(roots, w.constructorRoots()...)
 	reach := w.reachPkg(roots...)
 	n := 0
+	isShared := func(t types.Type) bool {
+		ts := typeStr(t)
+		return ts == "map[string]string" || ts == "map[string]reflect.Type"
+	}
 	for _, fn := range w.SrcFuncs() {
-		if !reach[fn] {
+		if !reach[rootFn(fn)] && !reach[fn] {
 			continue
 		}
 		cnt := 0
+		f := w.flow(fn)
 		for _, b := range fn.Blocks {
 			for _, in := range b.Instrs {
-				mu, ok := in.(*ssa.MapUpdate)
-				if !ok {
-					continue
+				var m, key ssa.Value
+				what := ""
+				switch x := in.(type) {
+				case *ssa.MapUpdate:
+					m, key, what = x.Map, x.Key, "update"
+				case *ssa.Call:
+					if bi, ok := x.Call.Value.(*ssa.Builtin); ok && (bi.Name() == "delete" || bi.Name() == "clear") && len(x.Call.Args) > 0 {
+						m, what = x.Call.Args[0], bi.Name()
+					}
 				}
-				owner, fld, ok := w.fieldOfLoad(mu.Map)
-				if !ok || (owner != "Encoder" && owner != "Decoder") {
-					continue
-				}
-				_, st := w.structOf(owner)
-				ts := typeStr(st.Field(fld).Type())
-				if ts != "map[string]string" && ts != "map[string]reflect.Type" {
+				if m == nil || !isShared(m.Type()) || freshMap(m, map[ssa.Value]bool{}) {
 					continue
 				}
 				n++
 				cnt++
-				ok2, fact := w.guardedByLookupMiss(mu)
-				r.add(rule, fmt.Sprintf("%s · update#%d of %s.%s", fnName(fn), cnt, owner, w.fieldName(owner, fld)), w.instrPos(mu), ok2, fact)
+				label := describeMapOperand(w, m)
+				k := fmt.Sprintf("%s · %s#%d of %s", fnName(fn), what, cnt, label)
+				mu, isMU := in.(*ssa.MapUpdate)
+				if !isMU {
+					r.add(rule, k, w.instrPos(in), false, what+" on a caller-supplied map")
+					continue
+				}
+				ok2, fact := w.guardedByLookupMissAny(mu)
+				if ok2 && !keyFromReflectType(key, map[ssa.Value]bool{}) {
+					ok2 = false
+					fact += "; but the key " + f.term(key).Key() + " is not computed from the type of the value being processed: no caller's map has it, so the first instances over one shared map all write it"
+				}
+				r.add(rule, k, w.instrPos(in), ok2, fact)
 			}
 		}
 	}
 	if n == 0 {
-		r.add(rule, "census", "-", true, "no update of Encoder.nameMap / Decoder.typMap is reachable from the codec entry points: the caller's maps are read-only for the library")
+		r.add(rule, "census", "-", true, "no write to a caller-supplied name/type map is reachable from the codec entry points or the constructors: the caller's maps are read-only for the library")
 	}
+}
+
+// constructorRoots: exported package-level functions that return an instance
+// (pointer to a package struct, or a package interface) — constructors and
+// pool constructors; factories they pass on are reached through the call graph.
+func (w *World) constructorRoots() []*ssa.Function {
+	var out []*ssa.Function
+	for _, fn := range w.SrcFuncs() {
+		if fn.Parent() != nil || fn.Signature.Recv() != nil || !token.IsExported(fn.Name()) {
+			continue
+		}
+		res := fn.Signature.Results()
+		for i := 0; i < res.Len(); i++ {
+			t := res.At(i).Type()
+			if pt, ok := t.Underlying().(*types.Pointer); ok {
+				t = pt.Elem()
+			}
+			if nt, ok := t.(*types.Named); ok && nt.Obj().Pkg() == w.TPkg {
+				switch nt.Underlying().(type) {
+				case *types.Struct, *types.Interface:
+					out = append(out, fn)
+				}
+				break
+			}
+		}
+	}
+	sort.Slice(out, func(i, j int) bool { return fnName(out[i]) < fnName(out[j]) })
+	return out
+}
+
+// freshMap: m is (on every incoming edge) a map made in this function.
+func freshMap(m ssa.Value, seen map[ssa.Value]bool) bool {
+	if seen[m] {
+		return true
+	}
+	seen[m] = true
+	switch x := m.(type) {
+	case *ssa.MakeMap:
+		return true
+	case *ssa.Phi:
+		for _, e := range x.Edges {
+			if !freshMap(e, seen) {
+				return false
+			}
+		}
+		return true
+	case *ssa.UnOp:
+		// a local variable cell: every store into it is fresh
+		if al, ok := x.X.(*ssa.Alloc); ok && x.Op == token.MUL {
+			any := false
+			for _, ref := range *al.Referrers() {
+				if st, ok := ref.(*ssa.Store); ok && st.Addr == ssa.Value(al) {
+					any = true
+					if !freshMap(st.Val, seen) {
+						return false
+					}
+				}
+			}
+			return any
+		}
+	}
+	return false
+}
+
+func describeMapOperand(w *World, m ssa.Value) string {
+	if owner, fld, ok := w.fieldOfLoad(m); ok {
+		return owner + "." + w.fieldName(owner, fld)
+	}
+	switch x := m.(type) {
+	case *ssa.Parameter:
+		return "parameter " + x.Name()
+	case *ssa.FreeVar:
+		return "captured " + x.Name()
+	}
+	return typeStr(m.Type()) + " value"
+}
+
+// keyFromReflectType: the key is computed from a reflect.Type / reflect.Value
+// (its Name(), String(), the package's type-name helper applied to it …).
+func keyFromReflectType(v ssa.Value, seen map[ssa.Value]bool) bool {
+	if v == nil || seen[v] {
+		return false
+	}
+	seen[v] = true
+	isRefl := func(t types.Type) bool {
+		ts := typeStr(t)
+		return ts == "reflect.Type" || ts == "reflect.Value" || ts == "reflect.StructField"
+	}
+	switch x := v.(type) {
+	case *ssa.Call:
+		if x.Call.IsInvoke() && isRefl(x.Call.Value.Type()) {
+			return true
+		}
+		for _, a := range x.Call.Args {
+			if isRefl(a.Type()) || keyFromReflectType(a, seen) {
+				return true
+			}
+		}
+	case *ssa.Phi:
+		for _, e := range x.Edges {
+			if !keyFromReflectType(e, seen) {
+				return false
+			}
+		}
+		return len(x.Edges) > 0
+	case *ssa.Extract:
+		return keyFromReflectType(x.Tuple, seen)
+	case *ssa.Field:
+		return isRefl(x.X.Type()) || keyFromReflectType(x.X, seen)
+	case *ssa.BinOp:
+		return keyFromReflectType(x.X, seen) || keyFromReflectType(x.Y, seen)
+	case *ssa.ChangeType:
+		return keyFromReflectType(x.X, seen)
+	case *ssa.Convert:
+		return keyFromReflectType(x.X, seen)
+	}
+	return false
+}
+
+// guardedByLookupMissAny: as guardedByLookupMiss, for any map operand (field
+// load, parameter, captured variable): same map value or same field.
+func (w *World) guardedByLookupMissAny(mu *ssa.MapUpdate) (bool, string) {
+	if _, _, ok := w.fieldOfLoad(mu.Map); ok {
+		return w.guardedByLookupMiss(mu)
+	}
+	fn := mu.Parent()
+	f := w.flow(fn)
+	kk := f.term(mu.Key).Key()
+	for _, b := range fn.Blocks {
+		for _, in := range b.Instrs {
+			lk, ok := in.(*ssa.Lookup)
+			if !ok || !lk.CommaOk || !(lk.X == mu.Map || sameCell(lk.X, mu.Map)) {
+				continue
+			}
+			for _, ref := range *lk.Referrers() {
+				ex, ok := ref.(*ssa.Extract)
+				if !ok || ex.Index != 1 {
+					continue
+				}
+				for _, r2 := range *ex.Referrers() {
+					iff, ok := r2.(*ssa.If)
+					if !ok {
+						continue
+					}
+					miss := iff.Block().Succs[1]
+					if miss.Dominates(mu.Block()) && len(miss.Preds) == 1 {
+						if lkKey := f.term(lk.Index).Key(); lkKey == kk {
+							return true, fmt.Sprintf("dominated by the miss edge of the lookup of the same key (%s) at %s", kk, w.instrPos(lk))
+						} else {
+							return false, fmt.Sprintf("guarded by a lookup of a different key (%s vs %s)", lkKey, kk)
+						}
+					}
+				}
+			}
+		}
+	}
+	return false, "unconditional write to a caller-supplied map (no dominating failed lookup of the same key)"
 }
 
 // ---- C11 ----
@@ -529,6 +711,7 @@ type fieldMut struct {
 	pos  string
 	what string
 	memo bool
+	at   ssa.Instruction
 }
 
 // fieldMutations: per (owner, field) the mutation sites inside functions of `within`.
@@ -549,15 +732,43 @@ func (w *World) fieldMutations(within map[*ssa.Function]bool) map[string][]field
 						if pt, ok := fa.X.Type().Underlying().(*types.Pointer); ok {
 							if n, ok := pt.Elem().(*types.Named); ok && n.Obj().Pkg() == w.TPkg {
 								k := n.Obj().Name() + "." + w.fieldName(n.Obj().Name(), fa.Field)
-								out[k] = append(out[k], fieldMut{fn, w.instrPos(x), "assignment", false})
+								out[k] = append(out[k], fieldMut{fn, w.instrPos(x), "assignment", false, x})
 							}
 						}
 					}
 					if ia, ok := x.Addr.(*ssa.IndexAddr); ok {
 						if owner, fld, ok := w.fieldOfLoad(ia.X); ok {
 							k := owner + "." + w.fieldName(owner, fld)
-							out[k] = append(out[k], fieldMut{fn, w.instrPos(x), "element store", false})
+							out[k] = append(out[k], fieldMut{fn, w.instrPos(x), "element store", false, x})
 						}
+					}
+				case *ssa.FieldAddr:
+					// a field that holds a struct or an array by value (a bytes.Buffer, a
+					// scratch array) is mutated through its address: handing the address to
+					// a call, boxing it in an interface or storing it keeps state in the field
+					if _, fresh := x.X.(*ssa.Alloc); fresh {
+						continue
+					}
+					pt, ok := x.X.Type().Underlying().(*types.Pointer)
+					if !ok {
+						continue
+					}
+					n, ok := pt.Elem().(*types.Named)
+					if !ok || n.Obj().Pkg() != w.TPkg {
+						continue
+					}
+					st, ok := n.Underlying().(*types.Struct)
+					if !ok {
+						continue
+					}
+					switch st.Field(x.Field).Type().Underlying().(type) {
+					case *types.Struct, *types.Array:
+					default:
+						continue
+					}
+					if what := addrEscapes(x, 0); what != "" {
+						k := n.Obj().Name() + "." + w.fieldName(n.Obj().Name(), x.Field)
+						out[k] = append(out[k], fieldMut{fn, w.instrPos(x), what, false, x})
 					}
 				case *ssa.MapUpdate:
 					if owner, fld, ok := w.fieldOfLoad(x.Map); ok {
@@ -569,13 +780,51 @@ func (w *World) fieldMutations(within map[*ssa.Function]bool) map[string][]field
 							strings.Contains(w.flow(fn).term(x.Value).Key(), "len(") {
 							memo = false
 						}
-						out[k] = append(out[k], fieldMut{fn, w.instrPos(x), "map update", memo})
+						out[k] = append(out[k], fieldMut{fn, w.instrPos(x), "map update", memo, x})
 					}
 				}
 			}
 		}
 	}
 	return out
+}
+
+// addrEscapes: what is done with the address of a by-value composite field
+// besides reading it ("" if nothing): passed to a call, boxed, stored, sliced,
+// or an element / sub-field of it is written.
+func addrEscapes(a ssa.Value, depth int) string {
+	refs := a.Referrers()
+	if refs == nil || depth > 3 {
+		return ""
+	}
+	for _, ref := range *refs {
+		switch x := ref.(type) {
+		case *ssa.UnOp:
+			// load
+		case *ssa.FieldAddr, *ssa.IndexAddr:
+			if w := addrEscapes(x.(ssa.Value), depth+1); w != "" {
+				return w
+			}
+		case *ssa.Store:
+			if x.Addr == a {
+				if depth > 0 {
+					return "store into a part of the field"
+				}
+				continue // whole-field assignment: reported as "assignment"
+			}
+			return "address stored"
+		case *ssa.Call:
+			return "address passed to " + x.Call.Value.Name()
+		case *ssa.MakeInterface:
+			return "address boxed in an interface"
+		case *ssa.Slice:
+			return "sliced"
+		case *ssa.DebugRef:
+		default:
+			return "address used by " + ref.String()
+		}
+	}
+	return ""
 }
 
 func rulesC11(w *World, r *Report) {
@@ -624,6 +873,18 @@ func rulesC11(w *World, r *Report) {
 		fname := k[strings.Index(k, ".")+1:]
 		_ = allMemo
 		ok, fact := w.resetReinits(owner, fname)
+		if !ok {
+			// a scratch field may also be emptied by the function that uses it, before every use
+			local := true
+			for _, m := range muts[k] {
+				if m.at == nil || !w.emptiedBefore(m.at, owner+"."+fname) {
+					local = false
+				}
+			}
+			if local {
+				ok, fact = true, "every use of the field is dominated by a call that empties it (Reset()/Truncate(0)) in the same function"
+			}
+		}
 		r.add("C11.R1 Reset re-initialises every mutable field", k, "-", ok, fact+"; mutated by "+strings.Join(sites, "; "))
 	}
 	r.floor("C11.R1 mutable per-stream fields", len(keys), 5)
@@ -674,6 +935,18 @@ func (w *World) resetReinits(owner, fname string) (bool, string) {
 				if _, isMap := st.Val.Type().Underlying().(*types.Map); isMap {
 					fresh = false
 				}
+			case *ssa.UnOp:
+				// f = T{}: the zero value of a by-value composite, built in a fresh local
+				if al, isAl := v.X.(*ssa.Alloc); isAl && v.Op == token.MUL {
+					fresh = true
+					for _, ref := range *al.Referrers() {
+						if _, isLoad := ref.(*ssa.UnOp); !isLoad {
+							if _, dbg := ref.(*ssa.DebugRef); !dbg {
+								fresh = false
+							}
+						}
+					}
+				}
 			}
 			domAll := true
 			for _, rb := range fn.Blocks {
@@ -689,6 +962,39 @@ func (w *World) resetReinits(owner, fname string) (bool, string) {
 			} else {
 				fail = "the re-initialisation at " + w.instrPos(st) + " is not on every path of Reset"
 			}
+		}
+	}
+	// idiom: f.Reset() / f.Truncate(0) on a by-value composite field (bytes.Buffer, strings.Builder)
+	for _, b := range fn.Blocks {
+		for _, in := range b.Instrs {
+			c, ok := in.(*ssa.Call)
+			if !ok || len(c.Call.Args) == 0 {
+				continue
+			}
+			sc := c.Call.StaticCallee()
+			fa, isFA := c.Call.Args[0].(*ssa.FieldAddr)
+			if sc == nil || !isFA || w.fieldNameOfAddr(fa) != owner+"."+fname {
+				continue
+			}
+			empties := sc.Name() == "Reset" && len(c.Call.Args) == 1
+			if sc.Name() == "Truncate" && len(c.Call.Args) == 2 {
+				if k, isC := c.Call.Args[1].(*ssa.Const); isC && k.Value != nil && k.Int64() == 0 {
+					empties = true
+				}
+			}
+			if !empties {
+				continue
+			}
+			domAll := true
+			for _, rb := range fn.Blocks {
+				if _, isRet := rb.Instrs[len(rb.Instrs)-1].(*ssa.Return); isRet && !b.Dominates(rb) {
+					domAll = false
+				}
+			}
+			if domAll {
+				return true, "Reset empties the field with " + sc.Name() + "() at " + w.instrPos(c)
+			}
+			fail = "the " + sc.Name() + "() at " + w.instrPos(c) + " is not on every path of Reset"
 		}
 	}
 	// idiom: clear(f) on a map field
@@ -714,6 +1020,48 @@ func (w *World) resetReinits(owner, fname string) (bool, string) {
 		}
 	}
 	return false, fail
+}
+
+// emptiedBefore: a Reset()/Truncate(0) call on the field owner.fname dominates
+// instruction at in its function.
+func (w *World) emptiedBefore(at ssa.Instruction, field string) bool {
+	fn := at.Parent()
+	for _, b := range fn.Blocks {
+		for i, in := range b.Instrs {
+			c, ok := in.(*ssa.Call)
+			if !ok || len(c.Call.Args) == 0 {
+				continue
+			}
+			sc := c.Call.StaticCallee()
+			fa, isFA := c.Call.Args[0].(*ssa.FieldAddr)
+			if sc == nil || !isFA || w.fieldNameOfAddr(fa) != field {
+				continue
+			}
+			empties := sc.Name() == "Reset" && len(c.Call.Args) == 1
+			if sc.Name() == "Truncate" && len(c.Call.Args) == 2 {
+				if k, isC := c.Call.Args[1].(*ssa.Const); isC && k.Value != nil && k.Int64() == 0 {
+					empties = true
+				}
+			}
+			if !empties {
+				continue
+			}
+			if b == at.Block() {
+				for j, in2 := range b.Instrs {
+					if in2 == at && j > i {
+						return true
+					}
+				}
+				// the FieldAddr feeding the emptying call itself
+				if fa2, ok := at.(*ssa.FieldAddr); ok && fa2 == fa {
+					return true
+				}
+			} else if b.Dominates(at.Block()) {
+				return true
+			}
+		}
+	}
+	return false
 }
 
 func (w *World) fieldNameOfAddr(fa *ssa.FieldAddr) string {
